@@ -517,6 +517,8 @@ def _entity_level(out, attrs, spec, case):
         out.fail("entity", "entity:mediatype_differs", {"got": ent2.media_type})
     if not out.violations:
         _typed_level(out, spec, case, kw)
+    if not out.violations:
+        _attribute_setters(out, spec, case)
     if out.violations or not case.get("edit"):
         return
     # composing in steps: the application changes the content after the entity has been serialised once (a first send, a log
@@ -543,6 +545,51 @@ def _entity_level(out, attrs, spec, case):
         cmp_message(spec, got1, "message", problems)
         if problems:
             out.fail("entity", "entity:edit_of_copy_changed_original:%s" % problems[0][0], {"path": problems[0][0]})
+
+
+def _attribute_setters(out, spec, case):
+    """composing through the attribute objects' own property setters: every field assigned after construction (also nested
+    context info and the downloadable part) is what the serialised payload carries"""
+    import copy
+    kinds = [k for k in spec if k in KINDS]
+    edit = case.get("typed_edit")
+    if len(kinds) != 1 or "conversation" in spec or not isinstance(edit, dict):
+        return
+    kind = kinds[0]
+    info = KINDS[kind]
+    merged = copy.deepcopy(spec)
+    try:
+        attrs = build_message(spec)
+        obj = getattr(attrs, kind)
+        for a, p_, k, req in info["fields"]:
+            if edit.get(a) is not None:
+                setattr(obj, a, val(k, edit[a]))
+                merged[kind][a] = edit[a]
+        if info["dm"] and isinstance(edit.get("dm"), dict):
+            for a, p_, k, req in DM:
+                if edit["dm"].get(a) is not None:
+                    setattr(obj.downloadablemedia_attributes, a, val(k, edit["dm"][a]))
+                    merged[kind]["dm"][a] = edit["dm"][a]
+            if kind == "document":
+                # one datum in two places (see ASSUMPTIONS): keep them equal, as the entity class's setter does
+                fl = merged[kind]["dm"].get("file_length")
+                if fl is not None:
+                    obj.file_length = fl
+                    obj.downloadablemedia_attributes.file_length = fl
+                    merged[kind]["file_length"] = fl
+        got = extract_message(conv.protobytes_to_message(conv.message_to_protobytes(attrs)))
+    except RecursionError as e:
+        out.fail("setters", "attribute_setter:%s:RecursionError" % kind, {"error": repr(e)[:120]})
+        return
+    except Exception as e:
+        out.fail("setters", "attribute_setter:%s:raises:%s:%s" % (kind, type(e).__name__, where(e)), {"error": repr(e)[:300]})
+        return
+    out.label("attribute_setters:" + kind)
+    problems = []
+    cmp_message(merged, got, "message", problems)
+    if problems:
+        p0 = problems[0]
+        out.fail("setters", "attribute_setter:%s:%s" % (p0[1], strip_idx(p0[0])), {"path": p0[0], "set": p0[2], "got": p0[3]})
 
 
 def _typed_classes():
